@@ -28,6 +28,9 @@
       not need it: their size command rejects the temporary array like any non-map / non-set.
 -/
 import DuckModel.Lemmas.ScriptRunLemmas
+import DuckModel.Lemmas.ScriptLoopConcat
+import DuckModel.Lemmas.ScriptLoopSetFromArray
+import DuckModel.Lemmas.ScriptLoopArrayConcat
 
 namespace Duck
 open Duck.Alias Duck.Coll Duck.ScriptRun Duck.Spec
@@ -192,6 +195,255 @@ theorem C12_script_loop_instances :
       = [("z".toList, "1".toList)] := by
   decide +kernel
 
+/-! ### scripts with a `for … in` loop, for every input (induction over the loop)
+
+The loop runs through the goto machine of `evalInstructions` with the for-in call-stack entry
+advancing its iteration counter (Lemmas/ScriptLoopLemmas.lean: `runFor_first`, `runFor_resume`,
+`runEnd_for`; per script a loop-invariant lemma by induction over the cells that are left).
+
+Additional hypotheses, all about the flow-control state the caller hands in (each holds in every
+state the script itself leaves behind after a run that did not end with an error inside the loop,
+`LoopFrame.forStack`, and in the initial state):
+  * `NoStaleFor scope st.forStack`: the top of the for-in call stack is not an entry of this
+    script (an entry stays behind when a run ends with an error inside the loop - finding
+    C12-array-concat-after-error; the next run then RESUMES that iteration);
+  * `CacheOK st.forMeta "<scope>::<line>" stop`: the cached block end of the script's `for`
+    line, if present, is the right one (only the `for` command writes it);
+  * the instruction budget of the model (`scriptFuel`) covers the run: bound linear in the number
+    of cells. -/
+
+/-- `concat` from source = the concatenation of its arguments, for every argument list.
+    `hempty`: without arguments the script's `for arg in ${scope::concat::arguments}` reads a
+    variable the wrapper did not set; the caller's value of it (if any) must not name an array. -/
+theorem C12_script_concat_correct (args : List Str) (vars : Vars) (st : ScriptSt)
+    (hfree : tget st.coll.tbl (Coll.handleName st.coll.next) = none)
+    (hstale : NoStaleFor "scope::concat".toList st.forStack)
+    (hcache : CacheOK st.forMeta "scope::concat::2".toList 4)
+    (hempty : args = [] → ∀ l, tget st.coll.tbl ((vars.get "scope::concat::arguments".toList).getD []) ≠ some (.list l))
+    (hfuel : 3 * args.length + 6 ≤ scriptFuel) :
+    (runScriptCmd "concat".toList args vars st).1 = .continue (some args.flatten) ∧
+    LookupEq (runScriptCmd "concat".toList args vars st).2.2.coll.tbl st.coll.tbl ∧
+    LoopFrame "scope::concat".toList (if args = [] then 0 else 1) (clear "scope::concat".toList vars) [] st
+      (runScriptCmd "concat".toList args vars st) := by
+  obtain ⟨k, hk⟩ : ∃ k, scriptFuel = k + 3 * args.length + 6 := ⟨scriptFuel - (3 * args.length + 6), by omega⟩
+  unfold runScriptCmd
+  rw [hk, show scriptDepth = 5 + 1 from rfl, concat_runF 5 k args vars st hstale hcache hempty]
+  refine ⟨rfl, ?_, ⟨rfl, ?_, rfl, rfl, rfl, fun _ _ => rfl, ?_, ?_⟩⟩
+  · intro h
+    by_cases ha : args = []
+    · simp [cFinal, ha]
+    · simp only [cFinal, ha, if_false, tget_tremove, tget_tinsert]
+      by_cases e : h = Coll.handleName st.coll.next
+      · simp [e, hfree]
+      · simp [e]
+  · by_cases ha : args = [] <;> simp [cFinal, ha]
+  · intro key hkey
+    exact get_forMetaAfter_frame _ _ _ _ (by decide) key hkey
+  · intro key hkey
+    exact get_put_frame _ _ _ _ (by decide) key hkey
+
+/-- `set_from_array` from source = the specified function, for every argument list, variable map
+    and state, up to the name of the new handle (`AgreesAlloc`: the source-run command draws the
+    name of its temporary argument array first, the specified function does not have one).
+    Hypotheses beyond those of the loop-free scripts:
+      * `hfree1`: the second name the allocator draws is not live either;
+      * `hok`: the argument is of the class that survives the rebuild / re-parse of the condition
+        `if not is_array <arg>` (`ArgOK`, the decidable C09 class; every handle name is in it);
+      * `hstale`, `hcI`, `hcF`, `hfuel`: see above; the bound is `3·n + 8` instructions for an
+        array of `n` cells.
+    The frame: 2 names drawn for a live array (temporary array + the set), both call stacks as
+    before; when the argument names no array the answer is `Error` and the if-call entry of the
+    validation block stays on the if call stack (`trigger_error` inside `if … end`). -/
+theorem C12_script_set_from_array_correct (args : List Str) (vars : Vars) (st : ScriptSt)
+    (hfree : tget st.coll.tbl (Coll.handleName st.coll.next) = none)
+    (hfree1 : tget st.coll.tbl (Coll.handleName (st.coll.next + 1)) = none)
+    (hne : args.head? ≠ some (Coll.handleName st.coll.next))
+    (hok : ∀ a, args.head? = some a → ArgOK a = true)
+    (hstale : NoStaleFor "scope::set_from_array".toList st.forStack)
+    (hcI : IfCacheOK st.ifMeta "scope::set_from_array::1".toList 3)
+    (hcF : CacheOK st.forMeta "scope::set_from_array::6".toList 8)
+    (hfuel : ∀ a, args.head? = some a → 3 * arrLen st.coll.tbl a + 8 ≤ scriptFuel) :
+    AgreesAlloc st.coll (Coll.exec st.coll .setFromArray args)
+      (runScriptCmd "set_from_array".toList args vars st).1
+      (runScriptCmd "set_from_array".toList args vars st).2.2.coll.tbl ∧
+    LoopFrame "scope::set_from_array".toList
+      (if args = [] then 0 else if headIsArray st.coll.tbl args then 2 else 1)
+      (if args = [] then vars else clear "scope::set_from_array".toList vars)
+      (if args = [] ∨ headIsArray st.coll.tbl args = true then []
+       else [ifEntry 1 3 "scope::set_from_array".toList]) st
+      (runScriptCmd "set_from_array".toList args vars st) := by
+  cases args with
+  | nil =>
+    unfold runScriptCmd
+    rw [runScriptCmdF_entry _ _ _ _ _ sfa_findScript sfa_parses, aliasRun_few _ _ _ _ _ _ _ (by decide)]
+    refine ⟨⟨⟨_, rfl⟩, fun _ => rfl⟩, ⟨rfl, rfl, rfl, rfl, rfl, fun _ _ => rfl, fun _ _ => rfl, fun _ _ => rfl⟩⟩
+  | cons a rest =>
+    have hne' : a ≠ Coll.handleName st.coll.next := fun e => hne (by simp [e])
+    have hfu := hfuel a rfl
+    obtain ⟨k, hk⟩ : ∃ k, scriptFuel = k + 3 * arrLen st.coll.tbl a + 8 :=
+      ⟨scriptFuel - (3 * arrLen st.coll.tbl a + 8), by omega⟩
+    have hSA : Coll.handleName (st.coll.next + 1) ≠ Coll.handleName st.coll.next :=
+      fun e => by have := Coll.handleName_inj e; omega
+    have hkey : ∀ n, underPrefix sScope (flowKey (pubSt sScope (a :: rest) st) n) = true :=
+      fun n => underPrefix_flowKey (pubSt sScope (a :: rest) st) n
+    unfold runScriptCmd
+    rw [hk, show scriptDepth = 4 + 2 from rfl,
+      sfa_runF 4 k a rest vars st hfree hfree1 hne' (hok a rfl) hstale hcI hcF]
+    have herr : (∀ l, tget st.coll.tbl a ≠ some (.list l)) →
+        AgreesAlloc st.coll (Coll.exec st.coll .setFromArray (a :: rest)) (.error sMsg)
+          (sfaErrFinal (a :: rest) st).coll.tbl ∧
+        LoopFrame sScope 1 (clear sScope vars) [ifEntry 1 3 sScope] st
+          (.error sMsg, clear sScope vars, sfaErrFinal (a :: rest) st) := by
+      intro hnl
+      have hspec : (Coll.exec st.coll .setFromArray (a :: rest)).2 = .err := by
+        simp only [Coll.exec, cmdSetFromArray]
+      refine ⟨?_, ⟨rfl, rfl, rfl, rfl, rfl, ?_, fun _ _ => rfl, ?_⟩⟩
+      · unfold AgreesAlloc
+        rw [hspec]
+        refine ⟨⟨_, rfl⟩, ?_⟩
+        intro h
+        simp only [sfaErrFinal, pubSt, tget_tremove, tget_tinsert]
+        by_cases e : h = Coll.handleName st.coll.next
+        · simp [e, hfree]
+        · simp [e]
+      · intro key hkey'
+        exact get_ifMetaAfter_frame sScope _ _ _ (hkey 1) key hkey'
+      · intro key hkey'
+        exact get_put_frame sScope _ _ _ (hkey 3) key hkey'
+    cases hv : tget st.coll.tbl a with
+    | none =>
+      have := herr (by intro l; rw [hv]; intro e; cases e)
+      simp only [headIsArray, hv, List.cons_ne_nil, if_false, false_or, Bool.false_eq_true]
+      exact this
+    | some v =>
+      cases v with
+      | map m =>
+        have := herr (by intro l; rw [hv]; intro e; cases e)
+        simp only [headIsArray, hv, List.cons_ne_nil, if_false, false_or, Bool.false_eq_true]
+        exact this
+      | set x =>
+        have := herr (by intro l; rw [hv]; intro e; cases e)
+        simp only [headIsArray, hv, List.cons_ne_nil, if_false, false_or, Bool.false_eq_true]
+        exact this
+      | other g =>
+        have := herr (by intro l; rw [hv]; intro e; cases e)
+        simp only [headIsArray, hv, List.cons_ne_nil, if_false, false_or, Bool.false_eq_true]
+        exact this
+      | list L =>
+        have hinv := sfaTbl_inv (pubSt sScope (a :: rest) st) L
+        simp only [headIsArray, hv, List.cons_ne_nil, if_false, if_true, false_or]
+        refine ⟨?_, ⟨rfl, rfl, rfl, rfl, rfl, ?_, ?_, ?_⟩⟩
+        · unfold AgreesAlloc
+          simp only [Coll.exec, cmdSetFromArray, hv, putHandle]
+          refine ⟨Coll.handleName st.coll.next, Coll.handleName (st.coll.next + 1), rfl, rfl, hfree1, ?_, ?_, ?_⟩
+          · simp only [sfaOkFinal, tget_tremove]
+            rw [if_neg hSA]
+            rw [show (pubSt sScope (a :: rest) st).coll.next = st.coll.next + 1 from rfl] at hinv
+            rw [hinv.set]; rfl
+          · simp only [sfaOkFinal, tget_tremove]
+            rw [if_neg hSA]
+            rw [show (pubSt sScope (a :: rest) st).coll.next = st.coll.next + 1 from rfl] at hinv
+            rw [hinv.set, tget_tinsert, if_pos rfl]
+            rfl
+          · intro key hkey'
+            simp only [sfaOkFinal, tget_tremove]
+            rw [show (pubSt sScope (a :: rest) st).coll.next = st.coll.next + 1 from rfl] at hinv
+            by_cases e : key = Coll.handleName st.coll.next
+            · simp [e, hfree]
+            · rw [if_neg e, hinv.other key hkey', tget_tinsert, if_neg hkey']
+              simp only [pubSt, tget_tinsert]
+              rw [if_neg e]
+        · intro key hkey'
+          exact get_ifMetaAfter_frame sScope _ _ _ (hkey 1) key hkey'
+        · intro key hkey'
+          exact get_forMetaAfter_frame sScope _ _ _ (hkey 6) key hkey'
+        · intro key hkey'
+          show ((_ : KV Str).put _ _).get key = _
+          rw [get_put_frame sScope _ _ _ (hkey 8) key hkey', get_put_frame sScope _ _ _ (hkey 3) key hkey']
+          rfl
+
+/-- the hypotheses about the flow-control state are INVARIANTS: they hold again in the state a
+    `concat` run leaves (and `LoopFrame` says the run does not disturb those of the other
+    scripts: call stacks as before, caches changed only under the own prefix) -/
+theorem C12_script_concat_reestablishes (args : List Str) (vars : Vars) (st : ScriptSt)
+    (hstale : NoStaleFor "scope::concat".toList st.forStack)
+    (hcache : CacheOK st.forMeta "scope::concat::2".toList 4)
+    (hempty : args = [] → ∀ l, tget st.coll.tbl ((vars.get "scope::concat::arguments".toList).getD []) ≠ some (.list l))
+    (hfuel : 3 * args.length + 6 ≤ scriptFuel) :
+    NoStaleFor "scope::concat".toList (runScriptCmd "concat".toList args vars st).2.2.forStack ∧
+    CacheOK (runScriptCmd "concat".toList args vars st).2.2.forMeta "scope::concat::2".toList 4 := by
+  obtain ⟨k, hk⟩ : ∃ k, scriptFuel = k + 3 * args.length + 6 := ⟨scriptFuel - (3 * args.length + 6), by omega⟩
+  unfold runScriptCmd
+  rw [hk, show scriptDepth = 5 + 1 from rfl, concat_runF 5 k args vars st hstale hcache hempty]
+  exact ⟨hstale, cacheOK_forMetaAfter _ _ _ hcache⟩
+
+/-- the same for `set_from_array`, whichever way the run ends (in particular a run that answers
+    `Error` leaves NO for-in entry behind: its `trigger_error` is outside the loop - unlike
+    `array_concat`, finding C12-array-concat-after-error) -/
+theorem C12_script_set_from_array_reestablishes (args : List Str) (vars : Vars) (st : ScriptSt)
+    (hfree : tget st.coll.tbl (Coll.handleName st.coll.next) = none)
+    (hfree1 : tget st.coll.tbl (Coll.handleName (st.coll.next + 1)) = none)
+    (hne : args.head? ≠ some (Coll.handleName st.coll.next))
+    (hok : ∀ a, args.head? = some a → ArgOK a = true)
+    (hstale : NoStaleFor "scope::set_from_array".toList st.forStack)
+    (hcI : IfCacheOK st.ifMeta "scope::set_from_array::1".toList 3)
+    (hcF : CacheOK st.forMeta "scope::set_from_array::6".toList 8)
+    (hfuel : ∀ a, args.head? = some a → 3 * arrLen st.coll.tbl a + 8 ≤ scriptFuel) :
+    NoStaleFor "scope::set_from_array".toList (runScriptCmd "set_from_array".toList args vars st).2.2.forStack ∧
+    IfCacheOK (runScriptCmd "set_from_array".toList args vars st).2.2.ifMeta "scope::set_from_array::1".toList 3 ∧
+    CacheOK (runScriptCmd "set_from_array".toList args vars st).2.2.forMeta "scope::set_from_array::6".toList 8 := by
+  cases args with
+  | nil =>
+    unfold runScriptCmd
+    rw [runScriptCmdF_entry _ _ _ _ _ sfa_findScript sfa_parses, aliasRun_few _ _ _ _ _ _ _ (by decide)]
+    exact ⟨hstale, hcI, hcF⟩
+  | cons a rest =>
+    have hne' : a ≠ Coll.handleName st.coll.next := fun e => hne (by simp [e])
+    have hfu := hfuel a rfl
+    obtain ⟨k, hk⟩ : ∃ k, scriptFuel = k + 3 * arrLen st.coll.tbl a + 8 :=
+      ⟨scriptFuel - (3 * arrLen st.coll.tbl a + 8), by omega⟩
+    unfold runScriptCmd
+    rw [hk, show scriptDepth = 4 + 2 from rfl,
+      sfa_runF 4 k a rest vars st hfree hfree1 hne' (hok a rfl) hstale hcI hcF]
+    have herr : NoStaleFor sScope (sfaErrFinal (a :: rest) st).forStack ∧
+        IfCacheOK (sfaErrFinal (a :: rest) st).ifMeta "scope::set_from_array::1".toList 3 ∧
+        CacheOK (sfaErrFinal (a :: rest) st).forMeta "scope::set_from_array::6".toList 8 :=
+      ⟨hstale, ifCacheOK_ifMetaAfter _ _ _ hcI, hcF⟩
+    cases tget st.coll.tbl a with
+    | none => exact herr
+    | some v =>
+      cases v with
+      | list L => exact ⟨hstale, ifCacheOK_ifMetaAfter _ _ _ hcI, cacheOK_forMetaAfter _ _ _ hcF⟩
+      | map m => exact herr
+      | set x => exact herr
+      | other g => exact herr
+
+/-- the mechanism of finding C12-array-concat-after-error FOR EVERY INPUT: whenever the first
+    argument of `array_concat` names no array (any further arguments, any variables, any state
+    satisfying the invariants), the run answers `Error` - like the specified function - from
+    INSIDE its validation loop and leaves that loop's for-in entry (iteration 1) on top of the
+    for-in call stack: `NoStaleFor` is false afterwards, which is the hypothesis every loop
+    theorem above needs (and the next `array_concat` resumes the stale iteration:
+    `C12_script_array_concat_after_error`). -/
+theorem C12_script_array_concat_error_leaves_entry (a : Str) (rest : List Str) (vars : Vars) (st : ScriptSt)
+    (hne : a ≠ Coll.handleName st.coll.next) (hok : ArgOK a = true)
+    (hnl : ∀ l, tget st.coll.tbl a ≠ some (.list l))
+    (hstale : NoStaleFor "scope::array_concat".toList st.forStack)
+    (hcF : CacheOK st.forMeta "scope::array_concat::1".toList 5)
+    (hcI : IfCacheOK st.ifMeta "scope::array_concat::2".toList 4) :
+    (runScriptCmd "array_concat".toList (a :: rest) vars st).1 =
+      .error "Invalid input, non array handle or array not found.".toList ∧
+    (Coll.exec st.coll .arrayConcat (a :: rest)).2 = .err ∧
+    (runScriptCmd "array_concat".toList (a :: rest) vars st).2.2.forStack =
+      { iteration := 1, start := 1, stop := 5, ctx := "scope::array_concat".toList } :: st.forStack ∧
+    ¬ NoStaleFor "scope::array_concat".toList (runScriptCmd "array_concat".toList (a :: rest) vars st).2.2.forStack := by
+  unfold runScriptCmd
+  rw [scriptFuel_eq, show scriptDepth = 4 + 2 from rfl, ac_runF_err 4 99996 a rest vars st hne hok hnl hstale hcF hcI]
+  refine ⟨rfl, ?_, rfl, ?_⟩
+  · simp only [Coll.exec, cmdArrayConcat, lists?]
+  · intro h
+    exact h _ rfl rfl
+
 /-! ### non-vacuity -/
 
 /-- an empty and a non-empty array, a map with an empty-string value, a wrong-kind handle -/
@@ -207,5 +459,17 @@ example :
 
 /-- the hypotheses are satisfiable: the empty state -/
 example : tget ({} : ScriptSt).coll.tbl (Coll.handleName ({} : ScriptSt).coll.next) = none := rfl
+
+/-- the hypotheses of the loop theorems hold in the initial state, and a handle name is `ArgOK` -/
+example : NoStaleFor "scope::set_from_array".toList ({} : ScriptSt).forStack ∧
+    IfCacheOK ({} : ScriptSt).ifMeta "scope::set_from_array::1".toList 3 ∧
+    CacheOK ({} : ScriptSt).forMeta "scope::set_from_array::6".toList 8 ∧
+    CacheOK ({} : ScriptSt).forMeta "scope::concat::2".toList 4 ∧
+    ArgOK (Coll.handleName 17) = true ∧ ArgOK "a b".toList = true ∧ ArgOK [] = true ∧
+    ArgOK "${h}".toList = false := by
+  refine ⟨?_, Or.inl rfl, Or.inl rfl, Or.inl rfl, by decide, by decide, by decide, by decide⟩
+  intro e h
+  cases h
+
 
 end Duck
